@@ -22,7 +22,7 @@ func init() { core.Register(prop{}) }
 
 func (prop) ID() string { return "C05" }
 func (prop) Rule() string {
-	return "cases: sign a wrapped content chunk (payload lengths 1, 2..300, 100, 4096, C) with a real secp256k1 key (random 32-byte scalar) and a random id, then valid/parse; " +
+	return "cases: sign a wrapped content chunk (payload lengths 1, 2..300, 100, 4096, C; or a caller-chosen span over 0..292 payload bytes, the smallest being the 105-byte SOC) with a real secp256k1 key (random 32-byte scalar) and a random id, then valid/parse; " +
 		"then single-byte XOR mutations (with undo) of the serialised chunk: in thorough every byte of the 105-byte header id(32)|sig(65)|span(8), in quick a random 40-byte subset plus all boundaries (0,31,32,95,96,97,104), " +
 		"64 (quick 8) random wrapped-payload positions, all 32 address bytes (quick: 8); truncation to 104/105/0, extension, re-addressing of a valid chunk, CreateAddress on random inputs; a malformed stream sets arbitrary (address,bytes) pairs incl. lengths 0,104,105,C+105,C+106. " +
 		"The signature and the owner recovered by btcec independently of pkg/soc are passed to the model as annotations (with the digest, which the model re-computes and compares). " +
@@ -52,6 +52,10 @@ func (prop) Gen(r *core.Rand, tier string) []core.Case {
 		"sign " + core.Hex(bytes.Repeat([]byte{0x33}, 32)) + " " + id1 + " g:9:50", "mutd 96 4", "valid", "mutd 96 4", "mutd 96 60", "valid",
 		"sign " + core.Hex(bytes.Repeat([]byte{0x44}, 32)) + " " + id1 + " g:10:50", "mutd 96 4", "valid", "mutd 96 4", "mutd 96 60", "valid",
 		"sign " + core.Hex(bytes.Repeat([]byte{0x55}, 32)) + " " + id1 + " g:11:50", "mutd 96 4", "valid", "mutd 96 4", "mutd 96 60", "valid"}})
+	// smallest possible SOC: 105 bytes (wrapped chunk = span only), and one byte more
+	cs = append(cs, core.Case{ID: "fix-min-size", NT: true, Ops: []string{"signw " + k1 + " " + id1 + " h:0000000000000000", "valid", "parse", "info",
+		"mutd 104 1", "valid", "mutd 104 1", "trunc 104", "valid", "signw " + k1 + " " + id1 + " h:010000000000000041", "valid", "parse",
+		"signw " + k1 + " " + id1 + " h:01000000000000", "signw " + k1 + " " + id1 + " h:ffffffffffffff7f4142", "valid", "mutd 97 1", "valid"}})
 	// every header byte once (always, both tiers): the property's "all single-byte mutations" of the header
 	all := core.Case{ID: "fix-header-all", NT: true, Ops: []string{"sign " + core.Hex(r.Bytes(32)) + " " + core.Hex(r.Bytes(32)) + " g:5:100", "valid"}}
 	for p := 0; p < hdr; p++ {
@@ -108,8 +112,20 @@ func (prop) Gen(r *core.Rand, tier string) []core.Case {
 		if r.Chance(8) {
 			idLen = r.Pick([]int{0, 1, 31, 33, 64}) // Sign does not check the id length; FromChunk re-splits at 32
 		}
-		c.Ops = append(c.Ops, "sign "+core.Hex(r.Bytes(32))+" "+core.Hex(r.Bytes(idLen))+" "+src, "valid", "parse")
+		signOp := "sign "
+		if l <= 300 && r.Chance(12) { // caller-chosen span, possibly no payload at all
+			signOp = "signw "
+			l = r.Pick([]int{8, 8, 9, 16, r.Range(8, 300)})
+			src = "h:" + core.Hex(r.Bytes(l))
+			if l > 40 {
+				src = fmt.Sprintf("g:%d:%d", r.Intn(1000), l)
+			}
+		}
+		c.Ops = append(c.Ops, signOp+core.Hex(r.Bytes(32))+" "+core.Hex(r.Bytes(idLen))+" "+src, "valid", "parse")
 		ok := l >= 1 && l <= C
+		if signOp == "signw " {
+			l -= 8
+		}
 		muts := 0
 		if ok {
 			total := idLen + 65 + 8 + l
@@ -227,7 +243,7 @@ func region(pos, idLen int) string {
 
 func (rn *runner) Step(ctx *core.Ctx, op []string) string {
 	switch {
-	case len(op) == 4 && op[0] == "sign":
+	case len(op) == 4 && (op[0] == "sign" || op[0] == "signw"):
 		key, e1 := core.UnHex(op[1])
 		id, e2 := core.UnHex(op[2])
 		data, ok := core.ParseSrc(op[3])
@@ -236,6 +252,9 @@ func (rn *runner) Step(ctx *core.Ctx, op []string) string {
 		}
 		rn.cur, rn.pristi = nil, nil
 		ch, err := cac.New(data)
+		if op[0] == "signw" {
+			ch, err = cac.NewWithDataSpan(data) // span chosen by the caller; 8 bytes = span only (smallest SOC, 105 bytes)
+		}
 		if err != nil {
 			return "err-cac"
 		}
